@@ -381,3 +381,28 @@ pub fn unseal(secret: &[u8], salt: &[u8], version_id: VersionId, sealed: Vec<u8>
     })?;
     Ok(unsealed.into())
 }
+
+/// A key derived once from a secret and a salt, for sealing and opening many values.
+pub struct VerifCryptor(Cryptor);
+
+impl VerifCryptor {
+    pub fn new(secret: &[u8], salt: &[u8]) -> Result<VerifCryptor> {
+        Ok(VerifCryptor(Cryptor::new(salt, &secret.to_vec().into())?))
+    }
+
+    pub fn seal(&self, version_id: VersionId, payload: Vec<u8>) -> Result<Vec<u8>> {
+        let sealed = self.0.seal(Unsealed {
+            version_id,
+            payload,
+        })?;
+        Ok(sealed.as_ref().to_vec())
+    }
+
+    pub fn unseal(&self, version_id: VersionId, sealed: Vec<u8>) -> Result<Vec<u8>> {
+        let unsealed = self.0.unseal(Sealed {
+            version_id,
+            payload: sealed,
+        })?;
+        Ok(unsealed.into())
+    }
+}
